@@ -625,6 +625,13 @@ func (s *netSim) defectHolds(v *vnode, tx *transaction.Transaction, d string) bo
 	case defectNames[defFeeShort]:
 		c, ok := s.defectFees[tx.Hash()]
 		return ok && c == [2]int64{bc.FeePerByte(), bc.GetBaseExecFee()}
+	case defectNames[defBlockedCosigner]:
+		for _, sg := range tx.Signers {
+			if isBlockedOn(v.n, sg.Account) {
+				return true
+			}
+		}
+		return false
 	}
 	return true
 }
